@@ -10,6 +10,8 @@ for i in ids:
     if not os.path.exists(f):
         na.append({'property_id': i, 'reason': NA.get(i, 'no harness built yet for this property with the solver-based technique (see DESIGN.md section 2/3)')}); continue
     spec = importlib.util.spec_from_file_location('p', f); m = importlib.util.module_from_spec(spec); spec.loader.exec_module(m)
+    if not getattr(m, 'READY', True):
+        na.append({'property_id': i, 'reason': getattr(m, 'NOT_READY_REASON', 'harnesses exist (props/%s.py) but do not yet reach a verdict within the budget on the unchanged tree; not claimed until they do' % i)}); continue
     served.append(i)
     checks.append({
         'property_id': i,
